@@ -1,5 +1,70 @@
-use serde_json::Value;
+use crate::ops::{b, s};
+use serde_json::{json, Value};
+use text_utils::metrics;
 
-pub fn dispatch(op: &str, _req: &Value) -> Result<Value, String> {
-    Err(format!("unknown op {op}"))
+fn strs(req: &Value, k: &str) -> Result<Vec<String>, String> {
+    let arr = req.get(k).and_then(|v| v.as_array()).ok_or(format!("missing {k}"))?;
+    Ok(arr.iter().map(|a| a.as_array().unwrap().iter().map(|c| char::from_u32(c.as_u64().unwrap() as u32).unwrap()).collect()).collect())
+}
+
+fn bools(req: &Value, k: &str) -> Result<Vec<bool>, String> {
+    Ok(req.get(k).and_then(|v| v.as_array()).ok_or(format!("missing {k}"))?.iter().map(|x| x.as_bool().unwrap()).collect())
+}
+
+pub fn dispatch(op: &str, req: &Value) -> Result<Value, String> {
+    match op {
+        #[cfg(feature = "verif")]
+        "metric_f1" => {
+            let (f1, p, r) = text_utils::verif_hooks::f1(req["tp"].as_u64().unwrap() as usize, req["fp"].as_u64().unwrap() as usize,
+                req["fn"].as_u64().unwrap() as usize, req["beta"].as_f64().ok_or("beta")?);
+            Ok(json!([f1, p, r]))
+        }
+        #[cfg(feature = "verif")]
+        "metric_spell_counts" => {
+            let cl = |k: &str| -> Result<String, String> { Ok(text_utils::text::clean(&s(req, k)?, true)) };
+            let (e, tp, fp, fn_) = text_utils::verif_hooks::spelling_counts(&cl("i")?, &cl("p")?, &cl("t")?, b(req, "g")?);
+            Ok(json!([tp, fp, fn_, e]))
+        }
+        #[cfg(feature = "verif")]
+        "metric_ws_counts" => {
+            let cl = |k: &str| -> Result<String, String> { Ok(text_utils::text::clean(&s(req, k)?, true)) };
+            let mode = match req["mode"].as_str().ok_or("mode")? {
+                "Insertions" => metrics::WhitespaceCorrectionMode::Insertions,
+                "Deletions" => metrics::WhitespaceCorrectionMode::Deletions,
+                _ => metrics::WhitespaceCorrectionMode::InsertionsAndDeletions,
+            };
+            Ok(match text_utils::verif_hooks::whitespace_counts(&cl("i")?, &cl("p")?, &cl("t")?, &mode, b(req, "g")?) {
+                Ok((_, tp, fp, fn_)) => json!([tp, fp, fn_]),
+                Err(_) => json!("Err"),
+            })
+        }
+        "metric_binary" => {
+            let (p, t) = (bools(req, "p")?, bools(req, "t")?);
+            let f1 = match metrics::binary_f1(&p, &t, req["beta"].as_f64().ok_or("beta")?) {
+                Ok((a, bb, c)) => json!({"Ok": [a, bb, c]}),
+                Err(_) => json!({"Err": true}),
+            };
+            let pi: Vec<usize> = p.iter().map(|x| *x as usize).collect();
+            let ti: Vec<usize> = t.iter().map(|x| *x as usize).collect();
+            let acc = match metrics::accuracy(&pi, &ti) {
+                Ok(a) => json!({"Ok": a}),
+                Err(_) => json!({"Err": true}),
+            };
+            Ok(json!({"f1": f1, "acc": acc}))
+        }
+        "metric_spell_f1" => {
+            Ok(match metrics::spelling_correction_f1(&strs(req, "i")?, &strs(req, "p")?, &strs(req, "t")?,
+                req["beta"].as_f64().ok_or("beta")?, b(req, "seq")?, b(req, "g")?) {
+                Ok(((f1, p, r), _)) => json!({"Ok": [f1, p, r]}),
+                Err(_) => json!({"Err": true}),
+            })
+        }
+        "metric_med" => {
+            let (a, bb) = (strs(req, "a")?, strs(req, "b")?);
+            let g = b(req, "g")?;
+            let f = |r: anyhow::Result<f64>| match r { Ok(v) => json!({"Ok": v}), Err(_) => json!({"Err": true}) };
+            Ok(json!({"med": f(metrics::mean_edit_distance(&a, &bb, g)), "mned": f(metrics::mean_normalized_edit_distance(&a, &bb, g))}))
+        }
+        _ => crate::ops11::dispatch(op, req),
+    }
 }
